@@ -137,6 +137,78 @@ CLAIMED.update({
         "design": "DESIGN.md section 3 C16",
     },
 })
+CLAIMED.update({
+    "C18": {
+        "text": "Contract-based deductive proof of gel.py: _edge_key (canonical undirected key), _clamp, observe_retrieval (gate off: "
+                "untouched; used = first top_k of the items above threshold under (-score,id); pairs <= pair_cap; only canonical keys of "
+                "used pairs written, weights inside the clamp, everything else unchanged), tick (factor in (0,1], no key added, removed iff "
+                "|w*f| < floor, |w'| <= |w|, counters exact), apply_merge/apply_split (annotation only), apply_promotion (concept node and "
+                "concept-member edges only; idempotent), promote_clusters (pure, sorted); history lemma 'weights stay inside the clamp' "
+                "proved for observe always and for tick when clamp_min <= 0 <= clamp_max (the validator-accepted clamp_min > 0 case is a "
+                "known finding).",
+        "note": "Floats are reals (NaN not modelled; spot-checked natively that NaN fails the threshold test); edge records have the fixed "
+                "layout of gel.py; items are (id, score) tuples; order-insensitivity of observe is implied by the selection clauses for "
+                "distinct (id, score) pairs but not machine-checked as a two-run lemma.",
+        "design": "DESIGN.md section 3 C18",
+    },
+})
+CLAIMED["C15"]["text"] += (" Also cache.py: _NamespaceCache / LRUCache / CacheManager over an insertion-ordered map model (TTL with the injected "
+    "clock, oldest-first eviction, exact counters, namespace isolation with verified frames), ThreadSafe wrappers (Engine-F lock discipline: "
+    "every method body is one `with self._lock` block and _inner is touched only inside it), merge_caches_deterministic (sorted worker and "
+    "key order, first-wins).")
+CLAIMED["C15"]["note"] += " CacheManager is verified for fixed namespace shapes (two existing + one new namespace); invalidate_all/stats are bounded to that shape."
+CLAIMED["C19"]["text"] += (" Per-function contracts: _truncate_tokens (<= max(limit,0) tokens), _reflect_rulebased/_reflect_llm (<= 1 entry, 0 when "
+    "ops cap <= 0, summary within the token limit), write_reflection_entries (written <= min(entries, cap), never raises), _episode_id / "
+    "_now_iso_from_ctx (functions of agent, turn, slot, text / now_iso, now_ms only).")
+CLAIMED["C19"]["note"] = ("str.split/join: two documented axioms; sha256 and _normalize are uninterpreted deterministic functions; the LLM fixture "
+    "adapter and the embedding are trusted; fixture files are not modelled.")
+CLAIMED.update({
+    "C06": {
+        "text": "Contract-based deductive proof of the snapshot helpers: _clamp, _round6, _edge_id (symmetric), _graph_bounds_from_cfg, "
+                "_sanitize_gel_for_write (canonical keys, the six documented fields, weight = round6(clamp(w)) or 0.0 under eps, exact "
+                "counters, input untouched; S(S(g)) = S(g)), _sanitize_gel_for_load, store export/import and their round trip, "
+                "_pick_latest_snapshot_path over an abstract directory listing (result is a listed *.json, never a sidecar or a temp name, "
+                "never raises).",
+        "note": "round(x,6) is uninterpreted with four listed trusted facts; floats are reals plus one NaN value; write_snapshot / "
+                "load_latest_snapshot end to end and the byte-for-byte fixpoint are not under contract; list-form graphs are outside the "
+                "stated input shape; 'highest snap number wins' is checked on one concrete listing only (bounded).",
+        "design": "DESIGN.md section 3 C06",
+    },
+    "C07": {
+        "text": "Bounded check (labelled bounded, not counted as proved) of the real compute_delta/_walk_diff/apply_delta/_set_path/_del_path on "
+                "symbolic JSON trees up to depth 2 x 2 keys per level (203 shape pairs in the quick tier): round trip, inputs untouched, "
+                "delta sections, delta empty iff equal; proved lemma path_codec (split(join(ks)) == ks iff no key contains '.' and the path "
+                "is non-empty; z3+cvc5 strings, unbounded). The round trip holds for dot-free non-empty keys and fails for '' / '.' keys "
+                "(two known findings with native replays).",
+        "note": "level is bounded exploration by the same symbolic semantics, not proof; keys are encoded as lists of dot-free words with "
+                "one assumption on character order; write_snapshot_auto / read_snapshot / the delta branch of load_latest_snapshot "
+                "(baseline present/missing/corrupt) are not under contract.",
+        "design": "DESIGN.md section 3 C07",
+    },
+})
+CLAIMED.update({
+    "C01": {
+        "text": "Engine-F clauses on the in-language nondeterminism sources: (1) every value derived from time.perf_counter()/time.time() in "
+                "run_turn flows only into other timing locals or into record fields with masked timing keys (taint analysis over the AST); "
+                "(2) no hash-order dependent iteration over a set in the listed stage functions (every set is iterated through sorted()); "
+                "(3) no RNG / id() / hash() / datetime.now in the listed functions. The (-score, id) tie-breaks are postconditions of the "
+                "C03/C11/C18 contracts. The dependence of scheduler yields on wall-clock time is a known finding.",
+        "note": "This decides only 'no listed nondeterminism source reaches an observable sink'; bit-reproducibility of numpy/BLAS across "
+                "processes, mtime-ordered snapshot discovery, real thread timing and the PYTHONHASHSEED claim beyond set iteration are not "
+                "decided. The function list is declared in contracts/f_determinism.py; a new function outside it is not covered.",
+        "design": "DESIGN.md section 3 C01",
+    },
+    "C14": {
+        "text": "The per-function parts contracts can reach: _suggest_key is total for every JSON/YAML key type (str/int/float/bool/None; "
+                "Engine V, with _lev's precondition 'both arguments are strings' as a call-site obligation), the unknown-key loops use keys "
+                "only opaquely, the normaliser raises only ConfigError (every raise statement), and all API variants run the normaliser on "
+                "their own argument and map ConfigError to the same message list.",
+        "note": "Totality over arbitrary leaf values through the 1300-line normaliser, purity (no mutation of the input), the CLI exit code and "
+                "'every accepted config is runnable' are NOT decided by this check; _lev is an assumed contract (string iteration is outside "
+                "the engine's subset).",
+        "design": "DESIGN.md section 3 C14",
+    },
+})
 PENDING_REASON = "check not built yet (construction in progress, see DESIGN.md section 3)"
 NA = {}
 
